@@ -211,6 +211,29 @@ def t5(F, rep):
     rep.add("T5", "bit-reader-single-byte-reads", n >= 2 and not bad, "src/bit_reader.rs", "%d uses of binary_reader, all read_u8 (no read-ahead)" % n if not bad else "; ".join(bad))
 
 
+def t5b(F, rep):
+    """Padding reads take exactly the bits still buffered.  After any read the bit reader holds 0..7 unread bits of the
+    current byte; the stored-block header and the end of the stream skip to the byte boundary by reading *those* bits. A
+    request for more (8 when aligned) would pull the next byte in — compressed_size one too large, or a byte of stored data
+    taken for padding; a request for fewer leaves the cursor inside the byte."""
+    from ..phase import PhaseEval
+    E = PhaseEval(F, "bit_count")
+    sites = []
+    rb = F.body(P + "deflate_reader::DeflateReader::<R>::read_eof_padding")
+    for bb, t in rb.calls():
+        if strip_generics(callee_def(t)).endswith("::get") and len(t["args"]) == 2:
+            sites.append(("read_eof_padding", rb, bb, t["args"][1]))
+    blk = F.body(P + "deflate_reader::DeflateReader::<R>::read_block")
+    for bb, t in blk.calls():
+        if strip_generics(callee_def(t)).endswith("::read_bits") and len(t["args"]) == 2 and flow.const_eval(blk, t["args"][1]) is None:
+            sites.append(("read_block", blk, bb, t["args"][1]))
+    rep.floor("T5", "padding-read-sites", len(sites), 2)
+    for nm, b, bb, op in sites:
+        got = [E.ev(b, op, bc) for bc in range(8)]
+        rep.add("T5", "padding-count=buffered-bits:" + nm, got == list(range(8)), b.where(bb),
+                "bits requested for 0..7 buffered bits: %s (must be 0..7: exactly what is left of the current byte)" % got)
+
+
 def run(ctx, rep):
     F = ctx.lib
     rep.explanation = ("The decoder's data (RFC 1951 tables, counts, fixed-Huffman map, repeat codes, header field widths) is compared with a "
@@ -226,3 +249,4 @@ def run(ctx, rep):
     t4(F, rep)
     t4b(F, rep)
     t5(F, rep)
+    t5b(F, rep)
